@@ -12,7 +12,8 @@
     through `flat net` (= the network with `nodes ++ ctrl` as node table), the loops run over `net.nodes` as in Go.
   * `μ : Nat → List W → Option (List W)` = `NodeActivators.ActivateModuleByType` (`none` = unknown module
     activation type); it may return any number of outputs (`ActivateModule` checks the length).
-  * `Network.Flush` iterates `allNodes` only: control-node state is NOT reset (`flush` = first `nodes.length` cells).
+  * `Network.Flush` iterates `allNodesMIMO` (repair 842abdd; before it: `allNodes` only, so control-node state was not
+    reset - Model/LegacySolverMod.lean).
   * `Network.RecursiveSteps` on a modular network fails in `MaxActivationDepthWithCap` before touching anything.
   For `net.ctrl = []` everything here coincides with Model/Solver.lean (Proofs/SolverModFlush.lean, `*_refine`).
 -/
@@ -108,19 +109,10 @@ def recursiveSteps (net : Net W) (σ : Nat → W → Option W) (μ : Nat → Lis
     let r := maxDepth net (s.map (·.visited))
     forwardSteps net σ μ (r.1 : Int) (setVisited s r.2)
 
-/-- loop of `Network.Flush` over the first `n` cells (= `allNodes`) -/
-def flushN : Nat → St W → St W × Bool × Option Err
-  | 0, s => (s, true, none)
-  | _ + 1, [] => ([], true, none)
-  | n + 1, a :: l =>
-    let a' := flushback a
-    if flushCheckFails a' then (a' :: l, false, some .flushCheck)
-    else
-      let r := flushN n l
-      (a' :: r.1, r.2)
-
-/-- `Network.Flush`: control nodes are not visited -/
-def flush (net : Net W) (s : St W) : Res W := flushN net.nodes.length s
+/-- `Network.Flush` (after repair 842abdd): `Flushback` + `FlushbackCheck` on every node of `allNodesMIMO`, control
+    nodes included (the state vector IS `allNodesMIMO`).  The loop before the repair (over `allNodes` only) is frozen
+    in Model/LegacySolverMod.lean. -/
+def flush (_net : Net W) (s : St W) : Res W := flushAux s
 
 /-- `Network.LoadSensors` -/
 def loadSensors (net : Net W) (xs : List W) (s : St W) : St W × Option Err := Solver.loadSensors (flat net) xs s
@@ -161,7 +153,8 @@ def complexity (net : Net W) : Nat := nodeCount net + linkCount net
 
 /-- no neuron and no module reads from a control node, no output is a control node.  Every network made by
     `Genome.Genesis` satisfies it (links of control genes are attached to the control node only, their endpoints are
-    ordinary nodes). -/
+    ordinary nodes).  Under it the control-node state is dead (C13Mod.std_mod_dead_state); since repair 842abdd it is
+    no longer needed for flush = fresh. -/
 def ctrlUnread (net : Net W) : Bool :=
   let n := net.nodes.length
   (net.nodes.all fun nd => !nd.isNeuron || nd.incoming.all fun l => decide (l.src < n)) &&
